@@ -1,20 +1,19 @@
 (* Tree/FilesProofsInv.v — C10 proofs, top layer: the invariant is preserved by every operation of Script.v's `op`
-   outside the classes Known10 (findings) and Pending10 (not proved yet: move, remove_file of the last file), along
+   outside the classes Known10 (findings) and RootNamedLast (not proved yet: move, remove_file of the last file), along
    single steps and along histories; completeness of the boolean checker (for refutations). *)
 From Coq Require Import PeanoNat Arith Lia.
 From AV Require Import Base.Bytes Base.Outcome Hash.HashModel Tree.Heap Tree.Ops Tree.Script Tree.Serialize
-  Tree.Inv Tree.InvProofsBase Tree.InvProofsCore Tree.InvProofsTree Tree.InvProofsPrim
+  Tree.Inv Tree.InvProofsBase Tree.InvProofsCore Tree.InvProofsTree Tree.InvProofsPrim Tree.InvProofsNav
   Tree.Files Tree.FilesProofsBase Tree.FilesProofsProj Tree.FilesProofsFrame Tree.FilesProofsOps
-  Tree.FilesProofsSet Tree.FilesProofsHole Tree.FilesProofsAdd Tree.FilesProofsStrip Tree.FilesProofsRemove Tree.FilesProofsLast.
+  Tree.FilesProofsSet Tree.FilesProofsHole Tree.FilesProofsAdd Tree.FilesProofsStrip Tree.FilesProofsRemove Tree.FilesProofsLast Tree.FilesProofsMove.
 Open Scope string_scope.
 Open Scope list_scope.
 Open Scope N_scope.
 
-(* operations whose proof is not finished: they are covered by the correspondence check and the oracle only.
-   (remove_file of the last file is proved unless the root's type is a named type, which no real table set has) *)
-Definition Pending10 (T : tables) (w : world) (o : op) : bool :=
+(* operations whose proof is not finished: none of the 26 constructors; the only excluded shape is remove_file of the
+   last file for a table set whose root type is a named type (no real table set has one) *)
+Definition RootNamedLast (T : tables) (w : world) (o : op) : bool :=
   match o with
-  | OpMove _ _ | OpMoveAt _ _ _ => true
   | OpRemoveFile _ _ => last_file w o && root_named T w o
   | _ => false
   end.
@@ -74,15 +73,33 @@ Proof.
 Qed.
 
 (* Core w' is C03's theorem Core_step (Tree/InvProofs.v); it is discharged in Tree/FilesProofsHist.v *)
+Lemma reach_root_alloc w r i : Reach w r i -> allocated w r.
+Proof. induction 1; auto. Qed.
+
+Lemma no_local_below w mv : Core w -> subtree_local w mv = false ->
+  forall y n, Reach w mv y -> w_nodes w y = Some n -> n_files n = [].
+Proof.
+  intros C H y n Hr Hn. unfold subtree_local in H.
+  destruct (walk_preorder w mv C (reach_root_alloc _ _ _ Hr)) as (_ & _ & Hin).
+  assert (In y (walk (fuel_of w) w mv)) as Hy by (apply Hin; exact Hr).
+  destruct (n_files n) as [|g l] eqn:Ef; auto. exfalso.
+  assert (existsb (fun x => negb (is_empty (files_of w x))) (walk (fuel_of w) w mv) = true) as E; [|congruence].
+  apply existsb_exists. exists y. split; auto. unfold files_of. rewrite Hn, Ef. reflexivity.
+Qed.
+
 Theorem inv_step_core o w r w' :
-  TreeInv w -> Core w' -> FilesInv T w -> Pending10 T w o = false -> Known10 w o = false -> Unowned w o = false ->
+  TreeInv w -> Core w' -> FilesInv T w -> RootNamedLast T w o = false -> Known10 w o = false -> Unowned w o = false ->
   run o w = Val (r, w') -> FilesInv T w'.
 Proof.
   intros TI C' FI HP HK HU H. pose proof TI as (C & _).
   destruct (frame_op o) eqn:Efo.
   - destruct (ff_run o Efo _ _ _ (core_fresh _ C) H) as (F & _). eapply frame_transfer; eauto.
   - unfold Known10 in HK. apply Bool.orb_false_iff in HK as (HK & HK3). apply Bool.orb_false_iff in HK as (HK1 & HK2).
-    destruct o; cbn [frame_op] in Efo; try discriminate; cbn [Pending10] in HP; try discriminate; unfold run in H; cbn [run_op] in H.
+    destruct o; cbn [frame_op] in Efo; try discriminate; cbn [RootNamedLast] in HP; try discriminate; unfold run in H; cbn [run_op] in H.
+    + unfold welem in H. apply run_bind_inv in H as (r0 & H).
+      eapply move_transfer; eauto; [eapply mr_e_move_element_here; eauto | apply no_local_below; auto].
+    + unfold welem in H. apply run_bind_inv in H as (r0 & H).
+      eapply move_transfer; eauto; [eapply mr_e_move_element_here_at; eauto | apply no_local_below; auto].
     + apply run_bind_inv in H as (r0 & H). eapply create_file_inv; eauto.
     + unfold wunit in H. apply run_bind_inv in H as (r0 & H).
       destruct (last_file w (OpRemoveFile m f)) eqn:EL; [eapply remove_file_last_inv; eauto | eapply remove_file_inv; eauto].
